@@ -15,6 +15,10 @@ from collections import deque
 def enc(v):
     if v is None or isinstance(v, bool):
         return v
+    if type(v) is _SubInt:
+        return {'subint': int(v)}
+    if type(v) is _SubFloat:
+        return {'subfloat': enc(float(v))}
     if isinstance(v, int):
         return v
     if isinstance(v, float):
@@ -50,6 +54,10 @@ def dec(j):
             return tuple([dec(x) for x in j['t']])
         if 'l' in j:
             return [dec(x) for x in j['l']]
+        if 'subint' in j:
+            return _SubInt(j['subint'])
+        if 'subfloat' in j:
+            return _SubFloat(dec(j['subfloat']))
         if 'vec' in j:
             return _Vec([dec(x) for x in j['vec']])
         if 'callable' in j:
@@ -68,7 +76,13 @@ def fbits(x):
 # functions
 # ---------------------------------------------------------------------------------------------
 
-EXC_TYPES = {'ValueError': ValueError, 'TypeError': TypeError, 'KeyError': KeyError, 'ZeroDivisionError': ZeroDivisionError,
+class FalsyError(Exception):
+    """an exception that is falsy (a validation error carrying an empty list of problems: `__len__` is 0)"""
+    def __len__(self):
+        return 0
+
+
+EXC_TYPES = {'FalsyError': FalsyError, 'ValueError': ValueError, 'TypeError': TypeError, 'KeyError': KeyError, 'ZeroDivisionError': ZeroDivisionError,
              'AttributeError': AttributeError, 'IndexError': IndexError}
 
 
@@ -85,6 +99,28 @@ SHARED_NAN = float('nan')
 
 class _Sentinel(object):
     pass
+
+
+class _SubInt(int):
+    """a value whose type is a proper subclass of int (as an IntEnum member, a numpy integer): arithmetic keeps the subclass"""
+    def __add__(self, o):
+        return _SubInt(int(self) + int(o))
+
+    __radd__ = __add__
+
+    def __repr__(self):
+        return '_SubInt(%d)' % int(self)
+
+
+class _SubFloat(float):
+    """a proper subclass of float whose addition rounds to cents and keeps the subclass"""
+    def __add__(self, o):
+        return _SubFloat(round(float(self) + float(o), 2))
+
+    __radd__ = __add__
+
+    def __repr__(self):
+        return '_SubFloat(%r)' % float(self)
 
 
 class _Amb(object):
